@@ -1900,11 +1900,23 @@ impl RustGenerator {
                 Self::sanitize_rust_identifier_base(candidate.label.as_str()) == base
             })
             .count();
-        if collisions > 1 || base == "_" {
+        if collisions > 1 || base == "_" || Self::is_reserved_method_name(&base) {
             format!("{base}__{}", func.index)
         } else {
             base
         }
+    }
+
+    /// Names a generated method must not have: Rust keywords that `escape_rust_identifier` cannot
+    /// turn into raw identifiers (`crate`, `super`, `Self`, `self`) or does not list (`gen`, reserved
+    /// since edition 2024), and the methods of the runtime scaffold's `impl MimiumProgram`.
+    fn is_reserved_method_name(base: &str) -> bool {
+        const RESERVED: &[&str] = &[
+            "gen", "crate", "super", "Self", "self", "new", "with_host", "call_dsp", "call_main",
+            "call_function_handle", "call_function_handle_with_memory", "get_current_statestorage",
+            "get_current_closure", "call_ext", "alloc_string", "load_upvalue", "store_upvalue",
+        ];
+        RESERVED.contains(&base) || base.starts_with("dispatch_")
     }
 
     fn sanitize_rust_identifier_base(raw: &str) -> String {
